@@ -13,7 +13,8 @@ RULE = ("histories of Timeline(...), add, remove/discard, update/|=, union/|, co
         "with full read-backs (list, len, bool, extent, t[k] for every k in -n-2..n+1, `in` and index() for members "
         "and non-members, ==, !=, timeline-in-timeline): every add/remove history of length <=3 (quick) / <=4 "
         "(thorough) over six segments of the grid 0..3 read back after every step, plus random histories of 5-40 "
-        "operations with a read after a write with probability 1/2, regimes K0/K4/K1; non-trivial = at least "
+        "operations with a read after a write with probability 1/2, regimes K0/K4/K1; pairs of timelines with the same "
+        "starts and the same ends paired differently (built directly or reached by edits) compared both ways; non-trivial = at least "
         "one removal of a present segment or an update/union, and at least two reads")
 
 
